@@ -293,3 +293,98 @@ def _stmt_key(k, line):
         return k.unit.lines[line - 1].strip().split('=')[0].strip()[:40]
     except Exception:
         return str(line)
+
+
+# --------------------------------------------------------------------------
+# generic driver for one analytic coo kernel
+
+
+def load_kernel(chk, rel, fname):
+    from . import pyxast
+    from .report import repo_path, REPO, AnalysisError
+    u = pyxast.parse(repo_path(rel), REPO)
+    chk.need(u.func(fname) is not None, 'anchor vanished: %s in %s' % (fname, rel))
+    try:
+        return MatrixKernel(u, fname)
+    except KeyError as e:
+        raise AnalysisError(str(e))
+
+
+def check_matrix_kernel(chk, R, model, rel, fname, sub, num, spec_fn, what, swap=True, transform=None,
+                        single_emit=True):
+    """R: rule ids {'hess','alias','frame','index'[,'swap']}.  spec_fn(frame, kernel)
+    -> {(P,Q): polynomial}.  Returns (kernel, blocks, frame, mismatching blocks)."""
+    k = load_kernel(chk, rel, fname)
+    issue_obligations(chk, R['alias'], k, rel)
+    fr = Frame(model, k, sub)
+    for construct, exp, got in fr.problems:
+        chk.ob(R['frame'], False, rel, fname, construct, expected=exp, got=got, detail='integration frame')
+    for c in fr.checked:
+        chk.ob(R['frame'], True, rel, fname, c, sample=c)
+    got = {pq: canon_F(k.block(pq)) for pq in k.blocks}
+    cmp_got = {pq: transform(v, k) for pq, v in got.items()} if transform else got
+    exp = spec_fn(fr, k)
+    bad = []
+    for pq in sorted(set(cmp_got) | set(exp)):
+        g = cmp_got.get(pq, P())
+        x = exp.get(pq, P())
+        if not g.close(x, ref=x if x.t else None):
+            bad.append(pq)
+    compare_blocks(chk, R['hess'], k, rel, cmp_got, exp, what)
+    if single_emit:
+        for pq, es in k.blocks.items():
+            chk.ob(R['hess'], len(es) == 1, rel, fname, 'single emit (%d,%d)' % pq, line=es[0].line,
+                   detail='block written %d times per iteration' % len(es))
+    chk.ob(R['hess'], not k.other_arrays, rel, fname, 'no other array written', got=sorted(k.other_arrays))
+    stray = sorted({a for v in got.values() for a in v.atoms() if a in ('m', 'n') or re.match(r'^L\d+$', a)})
+    chk.ob(R['hess'], not stray, rel, fname, 'values independent of m, n and raw indices', got=stray)
+    probs = index_map_problems(k, num)
+    for line, base, e, g_ in probs:
+        chk.ob(R['index'], False, rel, fname, 'index map ' + base, line=line, expected=e, got=g_)
+    if not probs:
+        chk.ob(R['index'], True, rel, fname, 'index maps', sample='row = row0 + %d*(j*m+i), col = col0 + %d*(l*m+k)' % (num, num))
+    guards = guards_of(k)
+    okg = bool(guards) and all(gs == ('skip-if row > col',) for gs in guards)
+    chk.ob(R['index'], okg, rel, fname, 'upper-triangle guard',
+           expected='every emit guarded by: if row > col: continue (and nothing else)',
+           got=sorted({g for gs in guards for g in gs}))
+    unit_num = k.unit.module_consts().get('num')
+    chk.ob(R['index'], unit_num == num, rel, fname, 'num', expected='cdef int num == modelDB num == %s' % num, got=unit_num)
+    if swap and 'swap' in R:
+        for pq in sorted(got):
+            qp = (pq[1], pq[0])
+            sw = swap_roles(got.get(qp, P()), k.w.atoms)
+            chk.ob(R['swap'], got[pq].close(sw), rel, fname, 'role-swap (%d,%d)' % pq,
+                   expected='E_PQ(A,B) == E_QP(B,A)', detail='; '.join(got[pq].diffterms(sw, 3)))
+    for pq, v in sorted(got.items()):
+        degs = v.degree_in(lambda a: a.startswith('Iy['))
+        chk.ob(R['alias'], degs <= {1}, rel, fname, 'y-degree (%d,%d)' % pq, expected='degree exactly 1 in y-integrals', got=sorted(degs))
+        degs = v.degree_in(lambda a: a.startswith('Ix['))
+        chk.ob(R['alias'], degs <= {1}, rel, fname, 'x-degree (%d,%d)' % pq, expected='degree exactly 1 in x-integrals', got=sorted(degs))
+    return k, got, fr, bad
+
+
+def strip_ylimits(p, atoms):
+    cache = {}
+
+    def fn(a):
+        if a in cache:
+            return cache[a]
+        info = atoms.reg.get(a)
+        r = a
+        if info and info[0] == 'I' and info[1] == 'y' and info[4]:
+            r = atoms.integral('y', 'full', info[3][0], info[3][1], None)
+        cache[a] = r
+        return r
+    return p.rename(fn)
+
+
+def sibling_check(chk, rule, model, fname_full, fname_sub, gf, gs, ks, nlead=2):
+    """sub-interval kernel == full kernel under the atom map (y limits dropped);
+    leading y1,y2 parameters do not appear elsewhere"""
+    for pq in sorted(set(gf) | set(gs)):
+        a = strip_ylimits(gs.get(pq, P()), ks.w.atoms)
+        b = gf.get(pq, P())
+        chk.ob(rule, a.close(b), MODELS[model], fname_sub, 'sibling %s (%d,%d)' % ((fname_full,) + pq),
+               expected='same polynomial as %s under full->sub atom map' % fname_full,
+               detail='; '.join(a.diffterms(b, 3)))
